@@ -518,6 +518,8 @@ func checkC14(res *Result) {
 		}
 	}
 
+	checkC14SSA(res)
+
 	// ---- IsUnmatchedErr
 	if fd := funcs["IsUnmatchedErr"]; fd != nil {
 		names := map[string]bool{}
